@@ -270,16 +270,34 @@ func quietNow() bool {
 }
 
 // settle: every tracked instance idle on 3 consecutive polls 0.5 ms apart (bounded by count).
-func settle() {
+func settle() { settlePolls(3, 500*time.Microsecond) }
+
+// settleFirm: 12 consecutive quiet polls 1 ms apart.  Used where a premature "idle" would be baked into a
+// reference (the snapshot taken at commit time, the twin's reference observation): the event loops dequeue a
+// message before they call StartUpdate, so for an instant nothing looks pending (DESIGN 2.2).
+func settleFirm() { settlePolls(12, time.Millisecond) }
+
+func settlePolls(need int, gap time.Duration) {
 	ok := 0
-	for i := 0; ok < 3 && i < 120000; i++ {
+	for i := 0; ok < need && i < 120000; i++ {
 		if quietNow() {
 			ok++
 		} else {
 			ok = 0
 		}
-		time.Sleep(500 * time.Microsecond)
+		time.Sleep(gap)
 	}
+}
+
+// settledOK issues a fixture request whose success depends on background processing of an earlier one
+// (e.g. a merge needs the label indices of the ingest); a refusal is retried once after a deep settle.
+func settledOK(f func() drive.Resp) drive.Resp {
+	r := f()
+	if !r.OK() {
+		deepSettle()
+		r = f()
+	}
+	return r
 }
 
 // deepSettle: BlockOnUpdating for every instance, then 250 ms of continuous quiet.
@@ -526,8 +544,6 @@ func diffObs(a, b *obs) (kind, msg string) {
 	}
 	return "", ""
 }
-
-func sameNames(a, b []string) bool { return strings.Join(a, ",") == strings.Join(b, ",") }
 
 // ------------------------------------------------------------------ server modes
 
